@@ -501,7 +501,7 @@ func genC15Conc(seed uint64, run int, tier string) *RunSpec {
 				Data: DataSpec{Shape: "map", Tag: fmt.Sprintf("zz%dzz", len(spec.Ops)), Items: 1}, Writer: WriterSpec{FailAt: -1}, Reader: ReaderSpec{FailAfter: -1}})
 		}
 	}
-	horizon := 450 * ntasks * opsPer
+	horizon := 1200 * ntasks * opsPer
 	ne := 1 + r.Intn(5)
 	cur := map[string]int{}
 	for i := 0; i < ne; i++ {
@@ -547,8 +547,14 @@ func execC15Conc(spec *RunSpec) *Result {
 		final[f.Name] = f.Initial
 	}
 	lastEdit := int64(0)
+	lastStamp := int64(0)
+	for i := range spec.Ops {
+		if cr.stamps[i][1] > lastStamp {
+			lastStamp = cr.stamps[i][1]
+		}
+	}
 	for _, e := range spec.Edits {
-		if e.Step > rep.Steps {
+		if e.Step > lastStamp {
 			continue // never took effect while tasks ran
 		}
 		ops = append(ops, porcupine.Operation{ClientId: 0, Input: regIn{Write: true, File: e.File, V: e.To}, Call: e.Step*2 - 1, Output: e.To, Return: e.Step * 2})
